@@ -15,6 +15,7 @@ import numpy as np
 import common as C
 
 META = {
+    "claimed": True,
     "id": "C15",
     "coq_targets": ["Props/C15.vo", "Extract/Extract_C15.vo"],
     "technique": "Coq proof (soundness, saturation and completeness of a fuelled upward search inside the finite node universe; arithmetic of range(0, dim, chunk) tilings; product of per-axis tilings) + differential correspondence of the extracted model with the implementation",
